@@ -834,6 +834,11 @@ class MemorizedFunc(Logger):
         """
         call_id = (self.func_id, self._get_args_id(*args, **kwargs))
 
+        # The result is stored next to the source code it was computed with:
+        # make sure that the stored code is the code of this function (the
+        # cache of the function is wiped if it changed) before persisting.
+        self._check_previous_func_code(stacklevel=3)
+
         # Return the output and the metadata
         return self._call(call_id, args, kwargs)
 
